@@ -85,7 +85,11 @@ pub fn gen_motif<A: Abc>(rng: &mut impl Rng, fmt: &str, idx: usize) -> Motif {
         (0..k).map(|_| (0..m).map(|_| if big { count_text(rng, true) } else { rng.gen_range(0..100000u32).to_string() }).collect()).collect()
     };
     let meta = |rng: &mut dyn rand::RngCore, p: f64| -> Option<String> {
-        if rng.gen_bool(p) { Some(format!("{} {}", word(rng, 5), word(rng, 3))) } else { None }
+        // one description / name in five holds characters outside ASCII (2- and 3-byte UTF-8 sequences)
+        if rng.gen_bool(p) {
+            if rng.gen_bool(0.2) { Some(format!("{} {} {}", word(rng, 3), ["Kr\u{fc}ppel", "\u{3b2}-catenin", "\u{10c}ech \u{2192} x", "caf\u{e9}"][rng.gen_range(0..4)], word(rng, 2))) }
+            else { Some(format!("{} {}", word(rng, 5), word(rng, 3))) }
+        } else { None }
     };
     // the rest of what a TRANSFAC entry may carry (every tag the parser knows): it must not disturb the fields of C14
     let mut refs = Vec::new();
@@ -388,7 +392,26 @@ fn bundled(rec: &mut Recorder, rng: &mut impl Rng) {
 fn mutate(rng: &mut impl Rng, base: &[u8], kind: usize) -> (Vec<u8>, String) {
     const DICT: &[&[u8]] = &[b">", b"[", b"]", b":", b"\t", b"\r", b"\n", b"//", b"P0", b"PO", b"XX", b"VV", b"0", b"9", b"-", b".", b"e", b"\x80", b"\xff", b"\0", b" ", b"A", b"N", b"\n\n", b"//\n", b"AC", b"RN", b"DT", b"CC", b"1e40", b"4294967296", b"A:", b"\t0.5"];
     let l = base.len();
-    match kind % 8 {
+    match kind % 11 {
+        8 if l > 0 => {
+            // flip the case of one ASCII letter (keywords, tags, symbols, exponents)
+            let letters: Vec<usize> = (0..l).filter(|&i| base[i].is_ascii_alphabetic()).collect();
+            if letters.is_empty() { return (base.to_vec(), "caseflip:none".into()); }
+            let p = letters[rng.gen_range(0..letters.len())];
+            let mut v = base.to_vec(); v[p] ^= 0x20; (v, format!("caseflip:{}", p))
+        }
+        9 | 10 if l > 0 => {
+            // damage at a line boundary: bytes (often not UTF-8) right before or right after a line terminator,
+            // i.e. between two records, between header and matrix, after the last row
+            const JUNK: &[&[u8]] = &[b"\x80", b"\xff", b"\xc3", b"\xe2\x82", b"\xff\xfe\xfd", b"\0", b" ", b"\r", b"x", b">", b"\xc3\xa9"];
+            let nl: Vec<usize> = (0..l).filter(|&i| base[i] == b'\n').collect();
+            if nl.is_empty() { return (base.to_vec(), "boundary:none".into()); }
+            let q = nl[rng.gen_range(0..nl.len())];
+            let p = if kind % 11 == 9 { q } else { q + 1 };
+            let d = JUNK[rng.gen_range(0..JUNK.len())];
+            let mut v = base[..p].to_vec(); v.extend_from_slice(d); v.extend_from_slice(&base[p..]);
+            (v, format!("boundary:{}:{:?}", p, d))
+        }
         0 => { let p = rng.gen_range(0..=l); (base[..p].to_vec(), format!("prefix:{}", p)) }
         1 if l > 0 => { let p = rng.gen_range(0..l); let mut v = base.to_vec(); v.remove(p); (v, format!("del:{}", p)) }
         2 if l > 0 => { let p = rng.gen_range(0..l); let d = DICT[rng.gen_range(0..DICT.len())]; let mut v = base[..p].to_vec(); v.extend_from_slice(d); v.extend_from_slice(&base[p + 1..]); (v, format!("sub:{}:{:?}", p, d)) }
@@ -486,7 +509,7 @@ pub fn record_c15(rec: &mut Recorder, seed: u64, thorough: bool) {
         for i in 0..per_fmt {
             let (base, abc) = &pool[r.gen_range(0..pool.len())];
             let (mut data, mut mname) = mutate(&mut r, base, i);
-            if r.gen_bool(0.2) { let k2 = r.gen_range(0..8); let (d2, m2) = mutate(&mut r, &data, k2); data = d2; mname = format!("{}+{}", mname, m2); }
+            if r.gen_bool(0.2) { let k2 = r.gen_range(0..11); let (d2, m2) = mutate(&mut r, &data, k2); data = d2; mname = format!("{}+{}", mname, m2); }
             let (s, sn) = schedule(&mut r, i / 8, data.len());
             c15_case(rec, fmt, abc, data, s, &sn, &mname);
         }
